@@ -46,6 +46,15 @@ def fam_eq():
     return Family("value-eq", "cmp", lambda i: {"type": "value", "key": f"k{i}", "op": "eq", "value": "v"}, lambda res, i, t: res.__setitem__(f"k{i}", "v" if t else "w"))
 
 
+SPECIAL_VALUES = ["C:\\", 'a"b', "x ) || ( y", "what ? a : b", "it's", "[{(", "&& || ?", "tail\\\\", 'q\\"']
+
+
+def fam_eq_special():
+    """value-eq whose literal contains quotes, brackets, operators or ends in a backslash."""
+    return Family("value-eq-special", "cmp", lambda i: {"type": "value", "key": f"sp{i}", "op": "eq", "value": SPECIAL_VALUES[i % len(SPECIAL_VALUES)]},
+                  lambda res, i, t: res.__setitem__(f"sp{i}", SPECIAL_VALUES[i % len(SPECIAL_VALUES)] if t else "other"))
+
+
 def fam_ne():
     return Family("value-gt", "cmp", lambda i: {"type": "value", "key": f"n{i}", "op": "gt", "value": 5}, lambda res, i, t: res.__setitem__(f"n{i}", 9 if t else 1))
 
@@ -86,8 +95,10 @@ def fam_used():
     return Family("used-ebs", "in", lambda i: {"type": "used"}, lambda res, i, t: res.__setitem__("SnapshotId", "snap-1" if t else "snap-9"), stub=True, shared=True)
 
 
-FAMILIES = [fam_eq(), fam_notbool(), fam_ni(), fam_in(), fam_marked(), fam_offhour(), fam_ne(), fam_tagcount(), fam_flow(), fam_health(), fam_used()]
+FAMILIES = [fam_eq(), fam_eq_special(), fam_notbool(), fam_ni(), fam_in(), fam_marked(), fam_offhour(), fam_ne(), fam_tagcount(), fam_flow(), fam_health(), fam_used()]
 PLAIN = [f for f in FAMILIES if not f.stub]
+OFFHOUR = next(f for f in FAMILIES if f.name == "offhour-opt-out")
+SPECIAL = next(f for f in FAMILIES if f.name == "value-eq-special")
 
 
 # ---------------------------------------------------------------- trees
@@ -376,7 +387,9 @@ def run(ctx):
                 rnd.shuffle(fams)
                 # make sure a ?:-clause and an &&-clause take part often
                 if rnd.random() < 0.6:
-                    fams.insert(rnd.randrange(2), FAMILIES[5])
+                    fams.insert(rnd.randrange(2), OFFHOUR)
+                if rnd.random() < 0.5:
+                    fams.insert(0, SPECIAL)
                 check_tree(h, shape, fams, f"conn{nconn}")
     if complete:
         acc.exhaustive.append(f"every filter tree with at most {maxconn} connective nodes (list/and/or/not, 1-3 children, <= 5 clauses) x all steering assignments")
